@@ -108,3 +108,11 @@ Inductive send :=
 | SNotify (method : list N) (params : payload)               (* notify(method, params) *)
 | SRequest (id : json) (method : list N) (params : payload)  (* send_request(method, params, msg_id=id) *)
 | SRaw (d : payload).                                        (* _send_data(value), a plain value *)
+
+(* ---- a session of one protocol object: the transport may be installed late and replaced ----
+   W = whatever describes a writer (the model uses its writer kinds). *)
+Inductive sop (W : Type) :=
+| OSetWriter (w : W) (include_headers : bool)     (* protocol.set_writer(writer, include_headers) *)
+| OSend (s : send).
+Arguments OSetWriter {W} _ _.
+Arguments OSend {W} _.
